@@ -49,6 +49,8 @@ def run(ctx):
     M = PoolModel(P, cg)
     inserts = [s for s in M.lease_sql() if s.stmt["kind"] == "insert"]
     ctx.floor("R1", "lease write", len(inserts), 1)
+    ctx.check(len(inserts) <= 1, "R1", "single-lease-writer", "", "exactly one statement inserts into `leases` (found %d: %s): a second writer "
+              "is outside everything this property's rules say about the writer" % (len(inserts), ", ".join(x.body.id for x in inserts)))
     if len(inserts) != 1:
         return
     W = inserts[0]
